@@ -215,7 +215,7 @@ Lemma step_inv : forall st o, inv st ->
   fev_synced (snd (fstep st o)) = false -> fev_reused (snd (fstep st o)) = false -> fev_guard (snd (fstep st o)) = false ->
   inv (fst (fst (fstep st o))).
 Proof.
-  intros st o I Hs Hr Hg. destruct o as [x a b|x a b|x|x a b|x|ws]; cbn [fstep] in *.
+  intros st o I Hs Hr Hg. destruct o as [x a b|x a b|x|x a b|x|ix|ws]; cbn [fstep] in *.
   - (* create *)
     cbn [fst snd fev_synced fev_reused fev_guard] in *. destruct I as [I1 I2 I3 I4 I5].
     set (r := next_rowid (rows st)) in *. set (n := {| f_id := x; f_rowid := r; f_a := a; f_b := b |}).
@@ -268,6 +268,7 @@ Proof.
   - (* synchronisation write: excluded *)
     destruct (find_row x (rows st)); cbn [snd fev_synced] in Hs; discriminate.
   - cbn [fst]. apply inv_remove. exact I.
+  - exact I.
   - exact I.
 Qed.
 
